@@ -147,8 +147,11 @@ pub fn replay_line(st: &mut Stats, prop: &str, line: &Value) {
             sorted.sort_unstable();
             if sorted != (0..n as u64).collect::<Vec<_>>() {
                 d.push(format!("Linkage::{mode}: indicies() = {:?} is not a permutation of 0..{n}", idx));
-            } else if idx != exp_idx {
-                d.push(format!("Linkage::{mode}: indicies() = {:?}, the merges mention the inputs in the order {:?}", idx, exp_idx));
+            } else if idx != exp_idx && st.violations.iter().filter(|v| v.property == "EXTRA").count() < 2 {
+                // the property asks for a permutation; WHICH one (the crate documents: the order in which the merges mention the inputs) is
+                // behaviour specified beyond the listed properties
+                let what = format!("Linkage::{mode}: indicies() = {:?}, the merges mention the inputs in the order {:?}", idx, exp_idx);
+                st.violations.push(Violation { property: "EXTRA".into(), what: what.clone(), replay: json!({"cmd": "replay-linkage", "property": "EXTRA", "line": line, "diffs": [what]}) });
             }
             // the callback: first call = every unordered pair of inputs exactly once
             let calls = calls.borrow();
